@@ -46,8 +46,18 @@ def cases(draw):
             "algo_seed": draw(st.integers(0, 1000))}
 
 
+@st.composite
+def dense_cases(draw):
+    """6-8 binary-valued variables and 8-14 (mostly binary) constraints: pseudo-trees with several back edges, nodes
+    whose children have separators of different sizes, joins of relations over three and more shared variables."""
+    desc = draw(gen.dcops(min_vars=6, max_vars=8, min_dom=2, max_dom=2, min_constraints=8, max_constraints=14,
+                          arities=(2, 2, 2, 3), var_costs=True, costs=gen.mixed_costs, shape="connected"))
+    return {"dcop": desc, "schedule": draw(gen.schedules(80)), "schedule2": draw(gen.schedules(80)),
+            "algo_seed": draw(st.integers(0, 1000))}
+
+
 def case_strategy(tier):
-    return cases()
+    return st.one_of(cases(), cases(), cases(), dense_cases())
 
 
 def run_dpop(desc, schedule, seed, wire=False):
